@@ -10,8 +10,10 @@ Driver for C17 (grid evaluation) and the array kernels of splineutil.c.  Lines (
         (`b` = `sliceIdxSafe`: fewer than 2^31 columns in the flattened section, the hypothesis of `slicemultiply_int_arith_exact`)
   `T …` (fields of `S`, large ranges) → `fail` | `ndim ranges* | nlisted (idx*)* | value at every listed index (same order) | safe=b`
   `G ndim (order nknots stride knotbits*)* ncoef coefbits32* (npts xbits*)*` → `gridEval` at `Rat`:
-        `none` | `ndim ranges* | nlisted (idx*)* | per grid point (row-major): get gridSpec specEval magnitude | safe=b`
-        (`b` = `gridIdxSafe`, the hypothesis of `grideval_int_arith_exact`)
+        `none` | `ndim ranges* | nlisted (idx*)* | per grid point (row-major): get gridSpec specEval magnitude majorant N | safe=b | K0=k`
+        (`b` = `gridIdxSafe`, the hypothesis of `grideval_int_arith_exact`; `majorant` = the cell of `gridEval dims |coef| coords`,
+        `N` = `NdSparse.nlisted` of the result at the cell, `k` = `gridRoundCount dims`: the quantities of
+        `C17_grideval_rounding_envelope_partial`, whose envelope is `gfac ε (k + N) · majorant`)
 -/
 namespace PsV.Driver.C17
 open PsV PsV.Driver PsV.Driver.Eval
@@ -157,9 +159,9 @@ def handleG (ws : List String) : String :=
         let dims := gd.map GDim.toRat
         let carr := cb.toArray
         let coef := coefRat carr
-        match gridEval dims coef coords with
-        | none => pure "none"
-        | some a =>
+        -- the majorant run of `C17_grideval_rounding_envelope_partial`: the same `gridEval` on the magnitudes
+        match gridEval dims coef coords, gridEval dims (fun i => ratAbs (coef i)) coords with
+        | some a, some am =>
           let T : Table Rat := ⟨dims, coef⟩
           let Tabs : Table Rat := ⟨dims, fun i => ratAbs (coef i)⟩
           let modes := List.replicate nd BasisMode.value
@@ -169,9 +171,10 @@ def handleG (ws : List String) : String :=
             | some xs =>
               let rows := gridRows dims xs
               let mag := specSum Tabs.coef (absRows rows) Arith.one 0
-              s!"{showRat (a.get g)} {showRat (gridSpec dims coef xs)} {showRat (specEval T xs modes)} {showRat mag}"
+              s!"{showRat (a.get g)} {showRat (gridSpec dims coef xs)} {showRat (specEval T xs modes)} {showRat mag} {showRat (am.get g)} {a.nlisted g}"
           let safe := if gridIdxSafe (dims.map (·.naxes)) 0 (coords.map List.length) then "1" else "0"
-          pure (s!"{a.ranges.length} {joinNat a.ranges} | {showIdxs (listed a)} | " ++ " ".intercalate pts ++ s!" | safe={safe}")
+          pure (s!"{a.ranges.length} {joinNat a.ranges} | {showIdxs (listed a)} | " ++ " ".intercalate pts ++ s!" | safe={safe} | K0={gridRoundCount dims}")
+        | _, _ => pure "none"
       | [] => none
     | [] => none
   r.getD "bad-input"
